@@ -182,6 +182,39 @@ theorem AW.run_some (cs : List Call) (h : ∀ c ∈ cs, (encode c).isSome) : ∀
     obtain ⟨a', ha'⟩ := ih (fun c' hc' => h c' (List.mem_cons_of_mem _ hc')) p.1
     exact ⟨a', by simp only [AW.run, hp, ha']⟩
 
+/-- between successful Flushes (failing ones allowed): pending grows by exactly what is written, the flag is the
+    disjunction of the error calls -/
+theorem AW.step_no_flush (a a' : AW) (c : Call) (r : Reply) (h : a.step c = some (a', r)) (hc : c ≠ .flush none) :
+    a'.pending = a.pending ++ written c ∧ a'.err = (a.err || isError c) := by
+  cases c with
+  | flush fail =>
+    cases fail with
+    | none => exact absurd rfl hc
+    | some k => simp only [AW.step, Option.some.injEq, Prod.mk.injEq] at h; obtain ⟨rfl, _⟩ := h; simp [written, encode, isError]
+  | bytes => simp only [AW.step, Option.some.injEq, Prod.mk.injEq] at h; obtain ⟨rfl, _⟩ := h; simp [written, encode, isError]
+  | hasError => simp only [AW.step, Option.some.injEq, Prod.mk.injEq] at h; obtain ⟨rfl, _⟩ := h; simp [written, encode, isError]
+  | _ =>
+    simp only [AW.step, Option.map_eq_some_iff, Prod.mk.injEq] at h
+    obtain ⟨e, he, rfl, _⟩ := h
+    simp [written_of_encode he]
+
+theorem AW.run_no_flush (cs : List Call) : ∀ (a a' : AW), AW.run a cs = some a' → (∀ c ∈ cs, c ≠ .flush none) →
+    a'.pending = a.pending ++ cs.flatMap written ∧ a'.err = (a.err || cs.any isError) := by
+  induction cs with
+  | nil => intro a a' h _; simp only [AW.run, Option.some.injEq] at h; subst h; simp
+  | cons c cs ih =>
+    intro a a' h hn
+    simp only [AW.run] at h
+    cases hs : a.step c with
+    | none => rw [hs] at h; cases h
+    | some p =>
+      obtain ⟨a1, r⟩ := p
+      rw [hs] at h
+      obtain ⟨h1, h1e⟩ := AW.step_no_flush a a1 c r hs (hn c (by simp))
+      obtain ⟨h2, h2e⟩ := ih a1 a' h (fun c' hc' => hn c' (List.mem_cons_of_mem _ hc'))
+      rw [h2, h1, h2e, h1e]
+      simp [List.append_assoc, Bool.or_assoc]
+
 /-! ### growth along a run -/
 
 /-- if the pending bytes never exceed M at the end of any call of the run, the array never exceeds
